@@ -233,6 +233,19 @@ func runC04(s *kernel.Sim) {
 	if withQuota {
 		files["quotas/q.yaml"] = strings.ReplaceAll(c08Quota, "a.com/p1", "a.com/g")
 	}
+	// or two concurrency quotas whose filters both match the transaction: their
+	// system flows run around the user flows, in reverse order on the response
+	nestedQuotas := !withQuota && tp.Chance(1, 3)
+	if nestedQuotas {
+		q := "quotas:\n"
+		urls := []string{"a.com/*", "a.com/g"}
+		ids := []string{"outer", "inner"}
+		for _, k := range tp.Perm(2) { // declaration order is not the nesting order
+			q += fmt.Sprintf("  - id: %s\n    filter:\n      url: %s\n    strategy:\n      concurrent:\n        max_request_count: 1000\n        request_expiration_sec: 60\n        gc_interval_sec: 30\n", ids[k], urls[k])
+		}
+		files["quotas/q.yaml"] = q
+	}
+	s.Knobs["nested_concurrency_quotas"] = nestedQuotas
 	nTxn := tp.Range(3, 10)
 	s.Knobs["flows"], s.Knobs["quota_system_flow"], s.Knobs["transactions"] = desc, withQuota, nTxn
 	s.MixSig(desc...)
@@ -266,6 +279,56 @@ func runC04(s *kernel.Sim) {
 		if kind == "proc.executed" && len(a) == 5 {
 			got[a[0]] = append(got[a[0]], ev{a[1], a[2], a[3]})
 		}
+	}
+	isSys := func(flow string) bool { return strings.HasPrefix(flow, "SystemFlow_") }
+	quotaOf := func(flow string) string {
+		x := strings.TrimPrefix(flow, "SystemFlow_")
+		x = strings.TrimSuffix(strings.TrimSuffix(x, "_SYSTEM_FLOW_START"), "_SYSTEM_FLOW_END")
+		return x
+	}
+	// flowSeq: flows in order of their first processor execution in a transaction side
+	flowSeq := func(txn string) []string {
+		var out []string
+		seen := map[string]bool{}
+		for _, e := range got[txn] {
+			if !seen[e.flow] {
+				seen[e.flow] = true
+				out = append(out, e.flow)
+			}
+		}
+		return out
+	}
+	sysOrder := func(txn string) []string { // quota ids in order of their system flows
+		var out []string
+		seen := map[string]bool{}
+		for _, f := range flowSeq(txn) {
+			if isSys(f) && !seen[quotaOf(f)] {
+				seen[quotaOf(f)] = true
+				out = append(out, quotaOf(f))
+			}
+		}
+		return out
+	}
+	userSeq := func(txn string) []string {
+		var out []string
+		for _, f := range flowSeq(txn) {
+			if !isSys(f) {
+				out = append(out, f)
+			}
+		}
+		return out
+	}
+	flowPositions := func(txn string) (firstUser, lastSysStart int) {
+		firstUser, lastSysStart = -1, -1
+		for i, f := range flowSeq(txn) {
+			if !isSys(f) && firstUser < 0 {
+				firstUser = i
+			}
+			if isSys(f) && strings.HasSuffix(f, "_SYSTEM_FLOW_START") {
+				lastSysStart = i
+			}
+		}
+		return
 	}
 	userOrder := []string{}
 	for _, p := range perm {
@@ -382,6 +445,14 @@ func runC04(s *kernel.Sim) {
 			}
 		}
 		compare("request", id)
+		sysReq := sysOrder(id)
+		s.Rule("R3")
+		if firstUser, lastSysStart := flowPositions(id); firstUser >= 0 && lastSysStart > firstUser {
+			s.Violate("R3", "system-flow-after-user-flow-on-request", "transaction %s: a quota system start flow ran after a user flow on the request: %v", id, flowSeq(id))
+		}
+		if o := userSeq(id); earlyFlow == "" && !isPrefixOrder(o, userOrder) {
+			s.Violate("R3", "user-flows-not-in-load-order-on-request", "transaction %s: user flows ran in order %v on the request, load order is %v", id, o, userOrder)
+		}
 		s.Rule("R2")
 		if out.Early != (earlyFlow != "") {
 			s.Violate("R2", "early-response-presence", "transaction %s: early response returned=%v, the graph reaches an early-response node=%v (%s/%s)", id, out.Early, earlyFlow != "", earlyFlow, earlyNode)
@@ -418,11 +489,48 @@ func runC04(s *kernel.Sim) {
 		}
 		earlyFlow = ""
 		compare("response", rid)
+		s.Rule("R3")
+		if sysResp := sysOrder(rid); len(sysReq) > 1 && len(sysResp) == len(sysReq) {
+			for i := range sysResp {
+				if sysResp[i] != sysReq[len(sysReq)-1-i] {
+					s.Violate("R3", "system-flows-not-reversed-on-response", "quota system flows ran in order %v on the request of %s and %v on its response (must be the reverse)", sysReq, id, sysResp)
+					break
+				}
+			}
+		}
+		if o := userSeq(rid); !isPrefixOrder(reverseOf(o), userOrder) && len(o) == len(userOrder) {
+			s.Violate("R3", "user-flows-not-reversed-on-response", "user flows ran in order %v on the response of %s, load order is %v", o, id, userOrder)
+		}
 		if len(got[rid]) > 0 || len(got[id]) > 1 {
 			s.Nontrivial()
 		}
 		s.State(fmt.Sprintf("%d/%d", len(got[id]), len(got[rid])))
 	}
+}
+
+// isPrefixOrder: the elements of got appear in the same relative order in want.
+func isPrefixOrder(got, want []string) bool {
+	pos := map[string]int{}
+	for i, w := range want {
+		pos[w] = i
+	}
+	last := -1
+	for _, g := range got {
+		p, ok := pos[g]
+		if !ok || p < last {
+			return false
+		}
+		last = p
+	}
+	return true
+}
+
+func reverseOf(a []string) []string {
+	b := make([]string, len(a))
+	for i := range a {
+		b[len(a)-1-i] = a[i]
+	}
+	return b
 }
 
 func sortedCopy(a []string) []string {
